@@ -1,4 +1,5 @@
 import LyModel.Diff.Lemmas13Rev
+import LyModel.Diff.LemmasRevSwitch
 /-!
 # C13 helper lemmas: reversing twice
 
@@ -502,7 +503,10 @@ end
 
 /-- `lyd_diff_reverse_all` twice gives the (duplicated) diff back -/
 theorem reverse_reverse {S : Schema} {A D : List DNode} (hD : exactDiff S A D = true) (hstd : stdL D = true) :
-    ∃ R, reverse S D = .ok R ∧ reverse S R = .ok (revDupL D) :=
-  listInv D none A false (Or.inl rfl) hD hstd
+    ∃ R, reverse S D = .ok R ∧ reverse S R = .ok (revDupL D) := by
+  obtain ⟨R, h1, h2⟩ := listInv D none A false (Or.inl rfl) hD hstd
+  have hD' : uoFreeL S D = true := noUO_of_exactDiff hD
+  have hR' : uoFreeL S R = true := noUO_revL S none _ R h1 (by rw [noUO_revDupL]; exact hD')
+  exact ⟨R, reverse_of_noUO hD' h1, reverse_of_noUO hR' h2⟩
 
 end LyModel.Diff
